@@ -199,6 +199,8 @@ def st_history(spec, golden):
                     try:
                         if op[1] == "generate":
                             out = MazeDataset.generate(cfg_T, gen_parallel=False)
+                        elif op[1] == "generate-default":
+                            out = MazeDataset.generate(cfg_T)  # serial by default
                         else:
                             out = MazeDataset.from_config(cfg_T, load_local=False, save_local=False)
                     except Exception as e:  # noqa: BLE001
@@ -229,7 +231,7 @@ def st_history(spec, golden):
                         viol = ["C04.probe-raised", f"pristine generation succeeds but the probe ({op[1]}) raised {type(exc).__name__}: {str(exc)[:200]}"]
                         break
                     recs = ds_records(out)
-                    if op[1] == "generate" or not T.get("applied_filters"):
+                    if op[1] in ("generate", "generate-default") or not T.get("applied_filters"):
                         if recs != golden["records"]:
                             nd = sum(1 for a, b in zip(recs, golden["records"]) if a != b) + abs(len(recs) - len(golden["records"]))
                             viol = ["C04.not-reproducible", f"probe {op[1]} after this history differs from the pristine run in {nd} of {len(golden['records'])} mazes"]
@@ -393,12 +395,17 @@ def gen_specs(rng: random.Random, tier: str, n: int) -> list[dict]:
                     ops.append(["construct_T"])
                     for _ in range(rng.randint(0, 3)):
                         ops.append(rand_noise(rng, T))
-                ops.append(["probe", rng.choice(["generate", "from_config"])])
+                ops.append(["probe", rng.choice(["generate", "generate-default", "from_config"])])
                 if rng.random() < 0.5:
                     for _ in range(rng.randint(0, 3)):
                         ops.append(rand_noise(rng, T))
-                    ops.append(["probe", rng.choice(["generate", "from_config"])])
+                    ops.append(["probe", rng.choice(["generate", "generate-default", "from_config"])])
                 specs.append({"seed": rng.getrandbits(48), "cfg": T, "ops": ops, "slot": slot})
+    # one very large dataset (sizes are a dimension of their own: 100 selects another storage format, 1000 another file-name
+    # abbreviation; anything that switches behaviour at "big" must still give the serial result by default)
+    Th = {"name": "huge", "grid_n": 2, "n_mazes": 10000, "maze_ctor": "gen_dfs", "maze_ctor_kwargs": {}, "endpoint_kwargs": {}, "seed": rng.choice([42, 7]), "applied_filters": []}
+    for slot in range(min(K, 3)):
+        specs.append({"seed": rng.getrandbits(48), "cfg": Th, "ops": [["draw", rng.choice(["py", "np"]), rng.randint(1, 20)], ["probe", ["from_config", "generate-default", "from_config"][slot]]], "slot": slot})
     for i in range(FRESH[tier]):
         T = cfgs[i % len(cfgs)]
         specs.append({"seed": rng.getrandbits(48), "cfg": T, "ops": [rand_noise(rng, T), ["probe", "generate"]], "slot": i % K, "fresh": {"hashseed": rng.randrange(1, 2**32 - 1), "optimize": i % 2 == 1}})
